@@ -21,11 +21,13 @@ def assert_valid_comodo(ds):
 
 
 def get_all_axes(ds):
-    axes = set()
+    # keyed by axis name in order of first appearance, so that iterating the
+    # result does not depend on the string hash seed (it still compares like a set)
+    axes = {}
     for d in ds.dims:
         if "axis" in ds[d].attrs:
-            axes.add(ds[d].attrs["axis"])
-    return axes
+            axes[ds[d].attrs["axis"]] = None
+    return axes.keys()
 
 
 def get_axis_coords(ds, axis_name):
